@@ -55,6 +55,7 @@ func NewIndex(fasta io.Reader) (Index, error) {
 	for sc.Scan() {
 		b := bytes.TrimSpace(sc.Bytes())
 		if len(b) == 0 {
+			offset += int64(len(sc.Bytes()))
 			continue
 		}
 		if bytes.Equal(b, []byte{'>'}) {
